@@ -156,6 +156,22 @@ def check(repo: Repo, rep: Report) -> None:
                         got[k.arg] = u(k.value)
                 rep.ob("R1-wrap", sub, short(n.value), all(got.get(sl) == sl for sl in SLOTS),
                        f"the wrapper's slots are not the subscriber's callbacks of the same kind: {got}")
+    # an observer OBJECT passed as the first argument is unpacked into its three methods: recognised by type OR by shape
+    unpack = [n for n in sub.direct_nodes() if isinstance(n, ast.If) and any(isinstance(x, ast.Call) and call_name(x) == "isinstance" for x in ast.walk(n.test))
+              and any(isinstance(y, ast.Assign) and isinstance(y.value, ast.Attribute) and y.value.attr == "on_completed" for y in ast.walk(n))]
+    oku = False
+    if len(unpack) == 1:
+        t_ = unpack[0].test
+        alts = t_.values if isinstance(t_, ast.BoolOp) and isinstance(t_.op, ast.Or) else [t_]
+        by_type = any(isinstance(a, ast.Call) and call_name(a) == "isinstance" and "ObserverBase" in u(a) for a in alts)
+        by_shape = any("hasattr" in u(a) and "on_next" in u(a) for a in alts if not (isinstance(a, ast.Call) and call_name(a) == "isinstance"))
+        oku = by_type and (by_shape or len(alts) == 1)
+        got_ = {u(y.targets[0]): y.value.attr for y in ast.walk(unpack[0]) if isinstance(y, ast.Assign) and isinstance(y.value, ast.Attribute)}
+        oku = oku and all(got_.get(sl) == sl for sl in SLOTS)
+    rep.ob("R1-wrap", sub, "an observer object (by type, or by shape) is unpacked into on_next / on_error / on_completed of the same kind", oku,
+           "Observable.subscribe does not unpack an observer object into its three methods (each to the slot of its kind) when it is an "
+           "ObserverBase or at least has a callable on_next: the object itself is then called as the on_next callback and its error / "
+           "completion handlers are never reached")
     rep.require(len(wrappers) == 1, "exactly one AutoDetachObserver construction in Observable.subscribe")
     w = next(iter(wrappers))
     core_calls = []
